@@ -221,34 +221,103 @@ func emitOuter(c *vh.Ctx, kind, key string, uc *tls.UConn, uexts string, st *tls
 	c.Case(kind, term, key+fmt.Sprintf("|%x", raw[:40]), true, map[string]any{"op": kind, "key": key, "raw_len": len(raw), "payload_len": len(oe.Payload)})
 }
 
-func (env *e2eEnv) run(c *vh.Ctx, id namedID, sc scenario, secret string, cfgID uint8, maxName uint8, aeads []uint16, idx int, heavy bool) {
-	key := id.Name
-	input := map[string]any{"id": id.Name, "scenario": sc.String(), "server_name": secret, "config_id": cfgID, "max_name_length": maxName, "aeads": aeads}
+// runOpts: variations of one handshake.
+type runOpts struct {
+	variant   string               // "" or a label that is put in front of the id in every oracle key
+	spec      *tls.ClientHelloSpec // when set: UClient(HelloCustom) + ApplyPreset(spec) instead of the id's own fresh spec
+	setup     *serverSetup         // when set: the server Config shared by a history of connections
+	clientKey int                  // with setup: index of the server key whose config the client holds; -1 = a stale config
+}
 
-	serverKey := newECHKey(cfgID, env.publicName, maxName, aeads)
-	clientList := configList(serverKey.config)
-	if sc == scReject {
-		// the client holds a config whose private key the server does not have
-		stale := newECHKey(cfgID, env.publicName, maxName, aeads)
-		clientList = configList(stale.config)
+// serverSetup: ONE server Config (several ECH keys, some not sent as retry) used for a whole history of connections.
+type serverSetup struct {
+	keys  []*echKey
+	retry []bool
+	cfg   *tls.Config
+	view  *serverView // the connection being served
+}
+
+func (env *e2eEnv) newServerSetup(keys []*echKey, retry []bool) *serverSetup {
+	st := &serverSetup{keys: keys, retry: retry}
+	var eks []tls.EncryptedClientHelloKey
+	for i, k := range keys {
+		eks = append(eks, tls.EncryptedClientHelloKey{Config: k.config, PrivateKey: k.priv.Bytes(), SendAsRetry: retry[i]})
 	}
-	wantRetry := configList(serverKey.config)
-
-	sv := &serverView{}
-	scfg := &tls.Config{
+	st.cfg = &tls.Config{
 		MinVersion: tls.VersionTLS13,
 		GetCertificate: func(chi *tls.ClientHelloInfo) (*tls.Certificate, error) {
-			sv.chiNames = append(sv.chiNames, chi.ServerName)
+			st.view.chiNames = append(st.view.chiNames, chi.ServerName)
 			if crt, ok := env.certFor[chi.ServerName]; ok {
 				return crt, nil
 			}
 			return nil, errors.New("no certificate for " + chi.ServerName)
 		},
-		EncryptedClientHelloKeys: []tls.EncryptedClientHelloKey{{Config: serverKey.config, PrivateKey: serverKey.priv.Bytes(), SendAsRetry: true}},
+		EncryptedClientHelloKeys: eks,
 	}
-	if sc == scHRR {
-		scfg.CurvePreferences = []tls.CurveID{tls.CurveP384}
+	return st
+}
+
+// the retry list the property demands: exactly the SendAsRetry configs, in configuration order
+func (st *serverSetup) wantRetry() []byte {
+	var cs [][]byte
+	for i, k := range st.keys {
+		if st.retry[i] {
+			cs = append(cs, k.config)
+		}
 	}
+	return configList(cs...)
+}
+
+func (st *serverSetup) coqKeys() string {
+	it := make([]string, len(st.keys))
+	for i, k := range st.keys {
+		it[i] = fmt.Sprintf("(%s, %s)", vh.Bytes(k.config), vh.Bool(st.retry[i]))
+	}
+	return vh.List(it)
+}
+
+func specSNI(es []tls.TLSExtension) *tls.SNIExtension {
+	for _, e := range es {
+		if x, ok := e.(*tls.SNIExtension); ok {
+			return x
+		}
+	}
+	return nil
+}
+
+func (env *e2eEnv) run(c *vh.Ctx, id namedID, sc scenario, secret string, cfgID uint8, maxName uint8, aeads []uint16, idx int, heavy bool, opt runOpts) {
+	key := id.Name
+	if opt.variant != "" {
+		key = opt.variant + "/" + id.Name
+	}
+	input := map[string]any{"id": id.Name, "scenario": sc.String(), "server_name": secret, "config_id": cfgID, "max_name_length": maxName, "aeads": aeads, "variant": opt.variant}
+
+	setup := opt.setup
+	var clientCfg []byte
+	if setup == nil {
+		serverKey := newECHKey(cfgID, env.publicName, maxName, aeads)
+		setup = env.newServerSetup([]*echKey{serverKey}, []bool{true})
+		clientCfg = serverKey.config
+		if sc == scReject {
+			// the client holds a config whose private key the server does not have
+			clientCfg = newECHKey(cfgID, env.publicName, maxName, aeads).config
+		}
+		if sc == scHRR {
+			setup.cfg.CurvePreferences = []tls.CurveID{tls.CurveP384}
+		}
+	} else if opt.clientKey >= 0 {
+		clientCfg = setup.keys[opt.clientKey].config
+		input["client_holds_server_key"] = opt.clientKey
+	} else {
+		clientCfg = newECHKey(cfgID, env.publicName, maxName, aeads).config
+		input["client_holds_server_key"] = "stale"
+	}
+	clientList := configList(clientCfg)
+	wantRetry := setup.wantRetry()
+
+	sv := &serverView{}
+	setup.view = sv
+	scfg := setup.cfg
 	ln, err := net.Listen("tcp", "127.0.0.1:0")
 	if err != nil {
 		panic(err)
@@ -288,6 +357,19 @@ func (env *e2eEnv) run(c *vh.Ctx, id namedID, sc scenario, secret string, cfgID 
 		EncryptedClientHelloConfigList: clientList,
 	}
 	uc := tls.UClient(rc, ccfg, id.ID)
+	sniBefore, haveSNI := "", false
+	if opt.spec != nil {
+		uc = tls.UClient(rc, ccfg, tls.HelloCustom)
+		if x := specSNI(opt.spec.Extensions); x != nil {
+			sniBefore, haveSNI = x.ServerName, true
+		}
+		if aerr := uc.ApplyPreset(opt.spec); aerr != nil {
+			c.Fail("ech-build/"+key, "ApplyPreset failed with an ECH config list", input, aerr.Error(), "spec applied")
+			raw.Close()
+			<-done
+			return
+		}
+	}
 	var st1 *tls.VerifC15State
 	var uexts1 string
 	var uextsOK bool
@@ -300,6 +382,11 @@ func (env *e2eEnv) run(c *vh.Ctx, id namedID, sc scenario, secret string, cfgID 
 	st1, err = tls.VerifC15GetState(uc)
 	if err != nil {
 		c.Fail("ech-build/"+key, "cannot marshal the inner hello", input, err.Error(), "inner hello")
+	}
+	// ApplyPreset's SNIExtension step against apply_preset_sni (u_parrots.go:2849-2856)
+	if x := specSNI(uc.Extensions); x != nil && (haveSNI || opt.spec == nil) {
+		c.Case("preset", fmt.Sprintf("CPreset (Some %s) %s %s %s", vh.Str(env.publicName), vh.Str(secret), vh.Str(sniBefore), vh.Str(x.ServerName)),
+			fmt.Sprintf("%s|%s|%d", key, sniBefore, idx), sniBefore != "", map[string]any{"op": "ApplyPreset/SNI", "before": sniBefore, "after": x.ServerName})
 	}
 	if st1 != nil && st1.HasECH {
 		uexts1, uextsOK = coqUexts(uc.Extensions)
@@ -438,6 +525,18 @@ func (env *e2eEnv) run(c *vh.Ctx, id namedID, sc scenario, secret string, cfgID 
 			c.Fail(k, "ECHAccepted reported although the server could not decrypt", input, map[string]any{"client": cstate.ECHAccepted, "server": sv.state.ECHAccepted}, "false/false")
 		}
 	}
+	// server side (processECHClientHello trial decryption + buildRetryConfigList) against the CONFIGURED key list
+	if opt.setup != nil {
+		var rej *tls.ECHRejectionError
+		switch {
+		case herr == nil && sv.err == nil:
+			c.Case("server", fmt.Sprintf("CServer %s %s %s None", setup.coqKeys(), vh.Bytes(clientCfg), vh.Bool(sv.state.ECHAccepted)),
+				fmt.Sprintf("%s|%d", key, idx), true, map[string]any{"op": "server", "accepted": sv.state.ECHAccepted, "client_key": opt.clientKey})
+		case errors.As(herr, &rej):
+			c.Case("server", fmt.Sprintf("CServer %s %s false (Some %s)", setup.coqKeys(), vh.Bytes(clientCfg), vh.Bytes(rej.RetryConfigList)),
+				fmt.Sprintf("%s|%d", key, idx), true, map[string]any{"op": "server", "accepted": false, "client_key": opt.clientKey, "retry": vh.Hex(rej.RetryConfigList)})
+		}
+	}
 	// outcome correspondence (client_finish): which name verifies is decided by Go's x509 with the spec's options
 	if sv.handshook || sc != scReject {
 		served := ""
@@ -468,6 +567,123 @@ func (env *e2eEnv) run(c *vh.Ctx, id namedID, sc scenario, secret string, cfgID 
 		}
 	}
 	_ = strings.Contains
+}
+
+// plain performs a NON-ECH handshake with a custom spec (the warm-up connection of the shared-SNIExtension scenario).
+func (env *e2eEnv) plain(c *vh.Ctx, id namedID, spec *tls.ClientHelloSpec, name string, idx int) bool {
+	sv := &serverView{}
+	scfg := &tls.Config{MinVersion: tls.VersionTLS13, GetCertificate: func(chi *tls.ClientHelloInfo) (*tls.Certificate, error) {
+		sv.chiNames = append(sv.chiNames, chi.ServerName)
+		if crt, ok := env.certFor[chi.ServerName]; ok {
+			return crt, nil
+		}
+		return nil, errors.New("no certificate for " + chi.ServerName)
+	}}
+	ln, err := net.Listen("tcp", "127.0.0.1:0")
+	if err != nil {
+		panic(err)
+	}
+	defer ln.Close()
+	done := make(chan struct{})
+	go func() {
+		defer close(done)
+		conn, err := ln.Accept()
+		if err != nil {
+			return
+		}
+		defer conn.Close()
+		conn.SetDeadline(time.Now().Add(10 * time.Second))
+		s := tls.Server(conn, scfg)
+		if sv.err = s.Handshake(); sv.err == nil {
+			buf := make([]byte, 64)
+			s.Read(buf)
+		}
+	}()
+	raw, err := net.Dial("tcp", ln.Addr().String())
+	if err != nil {
+		panic(err)
+	}
+	raw.SetDeadline(time.Now().Add(10 * time.Second))
+	before := ""
+	if x := specSNI(spec.Extensions); x != nil {
+		before = x.ServerName
+	}
+	uc := tls.UClient(raw, &tls.Config{ServerName: name, RootCAs: env.roots, MinVersion: tls.VersionTLS13}, tls.HelloCustom)
+	herr := uc.ApplyPreset(spec)
+	if herr == nil {
+		herr = uc.Handshake()
+	}
+	uc.Close()
+	raw.Close()
+	<-done
+	if x := specSNI(uc.Extensions); x != nil {
+		c.Case("preset", fmt.Sprintf("CPreset None %s %s %s", vh.Str(name), vh.Str(before), vh.Str(x.ServerName)),
+			fmt.Sprintf("plain|%s|%s|%d", id.Name, before, idx), false, map[string]any{"op": "ApplyPreset/SNI (no ECH)", "before": before, "after": x.ServerName})
+	}
+	c.Count(fmt.Sprintf("e2e_plain_ok_%v", herr == nil))
+	return herr == nil
+}
+
+// runVariants: (A) a spec whose SNIExtension already carries a name when the ECH connection applies it — pre-filled by the
+// caller, or left there by an earlier non-ECH connection that shared the extension object; (B) ONE server Config with
+// several ECH keys (some not sent as retry) serving a history of stale / old-key / current-key clients.
+func (env *e2eEnv) runVariants(c *vh.Ctx, capable []namedID, secrets []string, idx *int) {
+	r := c.Rng
+	for _, id := range capable {
+		if id.Name == "Golang" || (c.Tier == "quick" && id.Name != "Firefox_120" && id.Name != "Chrome_133") {
+			continue
+		}
+		secret := secrets[r.Intn(3)]
+		// A1: the caller's custom spec names the real server in its SNIExtension
+		if spec, err := tls.UTLSIdToSpec(id.ID); err == nil && specSNI(spec.Extensions) != nil {
+			specSNI(spec.Extensions).ServerName = secret
+			env.run(c, id, scAccept, secret, uint8(r.Intn(256)), 64, []uint16{1, 2, 3}, *idx, false, runOpts{variant: "prefilled-sni", spec: &spec})
+			*idx++
+		}
+		// A2: the SNIExtension object is shared with a spec that an earlier non-ECH connection used
+		specA, errA := tls.UTLSIdToSpec(id.ID)
+		specB, errB := tls.UTLSIdToSpec(id.ID)
+		if errA == nil && errB == nil && specSNI(specA.Extensions) != nil {
+			shared := specSNI(specA.Extensions)
+			for i, e := range specB.Extensions {
+				if _, ok := e.(*tls.SNIExtension); ok {
+					specB.Extensions[i] = shared
+				}
+			}
+			if env.plain(c, id, &specA, secret, *idx) {
+				env.run(c, id, scAccept, secret, uint8(r.Intn(256)), 32, []uint16{3}, *idx, false, runOpts{variant: "reused-sni-ext", spec: &specB})
+			}
+			*idx++
+		}
+	}
+	shape := 0
+	for _, id := range capable {
+		if c.Tier == "quick" && id.Name != "Golang" && id.Name != "Firefox_120" {
+			continue
+		}
+		secret := secrets[r.Intn(3)]
+		base := uint8(r.Intn(200))
+		mk := func(k int) *echKey { return newECHKey(base+uint8(k), env.publicName, 32, []uint16{1, 2, 3}) }
+		var setup *serverSetup
+		var history []int
+		if shape%2 == 0 {
+			// [old (not sent as retry), current (sent as retry)]
+			setup = env.newServerSetup([]*echKey{mk(0), mk(1)}, []bool{false, true})
+			history = []int{-1, 0, 1, -1, 0, -1}
+		} else {
+			setup = env.newServerSetup([]*echKey{mk(0), mk(1), mk(2), mk(3)}, []bool{false, true, false, true})
+			history = []int{2, -1, 0, 2, -1, 3, 1}
+		}
+		shape++
+		for _, k := range history {
+			sc := scAccept
+			if k < 0 {
+				sc = scReject
+			}
+			env.run(c, id, sc, secret, base+9, 32, []uint16{1, 2, 3}, *idx, false, runOpts{variant: "history", setup: setup, clientKey: k})
+			*idx++
+		}
+	}
 }
 
 func runE2E(c *vh.Ctx, rounds int) {
@@ -506,9 +722,10 @@ func runE2E(c *vh.Ctx, rounds int) {
 					secret = secrets[1]
 				}
 				env.run(c, id, sc, secret, uint8(r.Intn(256)), maxNames[(idx+round)%len(maxNames)], aeadSets[(idx/3+round)%len(aeadSets)], idx,
-					round == 0 && (c.Tier != "quick" || id.Name == "Firefox_120" || id.Name == "Chrome_133"))
+					round == 0 && (c.Tier != "quick" || id.Name == "Firefox_120" || id.Name == "Chrome_133"), runOpts{})
 				idx++
 			}
 		}
 	}
+	env.runVariants(c, capable, secrets, &idx)
 }
